@@ -146,7 +146,8 @@ class C06(PropertyCheck):
     assumptions = ["A-codec: encoding_rs Shift-JIS and str::encode_utf16/String::from_utf16 are lossless and NUL-free on the generated "
                    "text - CHECKED by the harness on every string of every case and by the sweep stream, not trusted",
                    "A-std: IndexMap insertion order, Vec (observed through the correspondence only)",
-                   "byte level: C06_round_trip has the C01 bin-archive round trip as an explicit premise (see notes/txt.md)"]
+                   "byte level: hypotheses of C06_round_trip = the property's domain (distinct keys, NUL-free title/keys/messages, valid UTF-16) and "
+                   "image size < 2^32; the bin-archive round trip it rests on is C01's theorem (Proofs/TextBinBridge.v), no premise left"]
 
     # ------------------------------------------------------------------ generation
     def generate(self, rng, tier):
@@ -414,11 +415,12 @@ MANIFEST = dict(
          "NUL-free text, both encodings, both endiannesses, empty archive and empty messages included) the bin archive the writer builds is "
          "read back by from_archive with the same title (Unicode format), the same ORDERED entries and dirty = false; every message offset is "
          "a multiple of 4, holds exactly its cell and carries exactly its key as label; the reader depends only on the observable content of "
-         "the archive, so the round trip on BYTES follows from the bin-archive round trip, which is an explicit premise of C06_round_trip "
-         "(C01's theorem; no axiom). Model tied to /repo on every run: serialize image byte-exact vs the extracted model, re-parsed entries vs "
+         "the archive, so the round trip on BYTES (C06_round_trip: TextFormat.serialize then TextFormat.from_bytes, both arithmetic profiles; "
+         "C06_layout_bytes: the layout read off the parsed image) follows from the bin-archive round trip C01, whose hypotheses wf_archive / fits32 "
+         "are proved for every archive the text writer builds when the image is smaller than 4 GiB (Proofs/TextBinBridge.v; no premise, no axiom). Model tied to /repo on every run: serialize image byte-exact vs the extracted model, re-parsed entries vs "
          "input and model, image examined by an independent Python reference reader, the two game files, from_archive on API-built archives, "
          "and an A-codec sweep of every scalar value / lossless Shift-JIS code on the real library.",
-    note=TB + "C06_round_trip is stated with the bin-archive byte-level round trip as a premise (discharged by C01 when merged). "
+    note=TB + "All C06 theorems are premise-free (hypotheses: distinct keys, NUL-free encoded text, valid UTF-16, bytes < 256, image < 2^32). "
               "Modelled, not verified: encoding_rs / encode_utf16 (A-codec, checked by the harness per case and by the sweep), IndexMap, Vec (A-std). "
               "Repaired defects: F10 d30c8b5, F11 b4ac2c0.",
     technique="Coq proof (induction over the message list: a terminator-free body followed by its terminator is read back exactly and the "
